@@ -1,8 +1,94 @@
-(* C13 — property theorems only. *)
-From Coq Require Import ZArith List.
-From Zix Require Import DigestModel DigestSpec.
+(* C13 — property theorems only.
+
+   Objects.  [digest64_at mem seed buf len] / [digest32_at ...] (DigestModel.v) follow zix_digest64 /
+   zix_digest32 of /repo/src/digest.c statement for statement over a byte-addressed memory
+   [mem : Z -> Z]; [digest64 seed bytes] is the same code run on a byte list placed at address 0;
+   [digest64_aligned seed ws] follows zix_digest64_aligned over the buffer's uint64_t objects.
+   [fasthash64] / [murmur3_32] (DigestSpec.v) are transcriptions of the published algorithms.
+
+   Purity ("depends only on the seed, the length and the length bytes given ... across calls") is by
+   construction -- the model is a Gallina function with no state; what is *proved* is that the only
+   part of memory the result depends on is the len bytes at buf, at any address.
+
+   Length sensitivity is stated exactly as far as it is true of the reference algorithms:
+   * murmur3: every zero-extension that stays inside one 4-byte block changes the digest;
+   * fasthash64: every zero-extension inside a block whose tail is already non-empty changes the
+     digest; from a length that is a multiple of 8, extension by j zero bytes changes the digest for
+     j in {1,2,3,5,6,7}; for j = 4 it does NOT in general ([length_sensitive64_boundary_refuted]
+     exhibits a 16-byte input colliding with its 20-byte zero-extension; this is a property of
+     fasthash64 itself, not a defect of zix). *)
+From Coq Require Import ZArith List Lia.
+From Zix Require Import DigestModel DigestSpec DigestProofs DigestProofsRef DigestProofsModel DigestProofsTop.
 Import ListNotations.
 Local Open Scope Z_scope.
+
+Definition u64 (x : Z) : Prop := 0 <= x < 2 ^ 64.
+Definition u32 (x : Z) : Prop := 0 <= x < 2 ^ 32.
+Definition bytes_ok (l : list Z) : Prop := Forall (fun b => 0 <= b < 256) l.
+(* the len bytes at buf are byte values *)
+Definition buffer_ok (mem : Z -> Z) (buf len : Z) : Prop := forall i, 0 <= i < len -> 0 <= mem (buf + i) < 256.
+
+(* ------------------------------------------------------------------ pure / address independent *)
+
+(* the digest of a buffer is a function of the seed and of the list of its len bytes: whatever the
+   address (alignment), whatever the rest of memory holds *)
+Theorem digest64_depends_only_on_bytes : forall mem seed buf len, 0 <= len -> buffer_ok mem buf len ->
+  digest64_at mem seed buf len = digest64 seed (read mem buf (Z.to_nat len)).
+Proof. exact at64_bytes. Qed.
+Print Assumptions digest64_depends_only_on_bytes.
+
+Theorem digest32_depends_only_on_bytes : forall mem seed buf len, 0 <= len -> u32 seed -> buffer_ok mem buf len ->
+  digest32_at mem seed buf len = digest32 seed (read mem buf (Z.to_nat len)).
+Proof. exact at32_bytes. Qed.
+Print Assumptions digest32_depends_only_on_bytes.
+
+(* the same bytes in another memory at another address (any alignment) give the same digest *)
+Theorem digest64_address_independent : forall mem mem' seed buf buf' len, 0 <= len -> buffer_ok mem buf len ->
+  (forall i, 0 <= i < len -> mem' (buf' + i) = mem (buf + i)) ->
+  digest64_at mem' seed buf' len = digest64_at mem seed buf len.
+Proof. exact at64_same_bytes. Qed.
+Print Assumptions digest64_address_independent.
+
+Theorem digest32_address_independent : forall mem mem' seed buf buf' len, 0 <= len -> u32 seed -> buffer_ok mem buf len ->
+  (forall i, 0 <= i < len -> mem' (buf' + i) = mem (buf + i)) ->
+  digest32_at mem' seed buf' len = digest32_at mem seed buf len.
+Proof. exact at32_same_bytes. Qed.
+Print Assumptions digest32_address_independent.
+
+(* ------------------------------------------------------------------ the algorithms implemented *)
+
+Theorem digest64_is_fasthash64 : forall seed bytes, bytes_ok bytes -> digest64 seed bytes = fasthash64 seed bytes.
+Proof. exact digest64_ref. Qed.
+Print Assumptions digest64_is_fasthash64.
+
+Theorem digest32_is_murmur3_32 : forall seed bytes, u32 seed -> bytes_ok bytes ->
+  digest32 seed bytes = murmur3_32 seed bytes.
+Proof. exact digest32_ref. Qed.
+Print Assumptions digest32_is_murmur3_32.
+
+(* ------------------------------------------------------------------ aligned variants, native size *)
+
+(* for every list of words: the aligned variant equals the general one on the words' little-endian bytes *)
+Theorem aligned_eq_general64 : forall seed ws, Forall u64 ws ->
+  digest64_aligned seed ws = digest64 seed (bytes_le 8 ws).
+Proof. exact aligned64_general. Qed.
+Print Assumptions aligned_eq_general64.
+
+Theorem aligned_eq_general32 : forall seed ws, u32 seed -> Forall u32 ws ->
+  digest32_aligned seed ws = digest32 seed (bytes_le 4 ws).
+Proof. exact aligned32_general. Qed.
+Print Assumptions aligned_eq_general32.
+
+(* the same, starting from the buffer: any byte list whose length is a multiple of the word *)
+Theorem aligned_eq_general64_buffer : forall seed bytes nb, bytes_ok bytes -> length bytes = (8 * nb)%nat ->
+  digest64_aligned seed (words_of_bytes 8 nb bytes) = digest64 seed bytes.
+Proof. exact aligned64_buffer. Qed.
+Print Assumptions aligned_eq_general64_buffer.
+
+Theorem aligned_eq_general32_buffer : forall seed bytes nb, u32 seed -> bytes_ok bytes -> length bytes = (4 * nb)%nat ->
+  digest32_aligned seed (words_of_bytes 4 nb bytes) = digest32 seed bytes.
+Proof. exact aligned32_buffer. Qed.
+Print Assumptions aligned_eq_general32_buffer.
 
 (* zix_digest / zix_digest_aligned are the functions of the native word size (64-bit platform) *)
 Theorem native_is_64 :
@@ -11,3 +97,112 @@ Theorem native_is_64 :
   (forall seed ws, digest_aligned seed ws = digest64_aligned seed ws).
 Proof. repeat split. Qed.
 Print Assumptions native_is_64.
+
+(* ------------------------------------------------------------------ sensitivity: seed *)
+
+Theorem seed_injective64 : forall bytes s s', bytes_ok bytes -> u64 s -> u64 s' ->
+  digest64 s bytes = digest64 s' bytes -> s = s'.
+Proof. exact seed_inj64. Qed.
+Print Assumptions seed_injective64.
+
+Theorem seed_injective32 : forall bytes s s', bytes_ok bytes -> u32 s -> u32 s' ->
+  digest32 s bytes = digest32 s' bytes -> s = s'.
+Proof. exact seed_inj32. Qed.
+Print Assumptions seed_injective32.
+
+(* ------------------------------------------------------------------ sensitivity: one block *)
+
+(* fixed seed, length and all other bytes: the i-th word-sized block -> digest is injective *)
+Theorem block_injective64 : forall seed pre blk blk' post i,
+  u64 seed -> bytes_ok pre -> bytes_ok post -> bytes_ok blk -> bytes_ok blk' ->
+  length pre = (8 * i)%nat -> length blk = 8%nat -> length blk' = 8%nat ->
+  digest64 seed (pre ++ blk ++ post) = digest64 seed (pre ++ blk' ++ post) -> blk = blk'.
+Proof. exact block_inj64. Qed.
+Print Assumptions block_injective64.
+
+Theorem block_injective32 : forall seed pre blk blk' post i,
+  u32 seed -> bytes_ok pre -> bytes_ok post -> bytes_ok blk -> bytes_ok blk' ->
+  length pre = (4 * i)%nat -> length blk = 4%nat -> length blk' = 4%nat ->
+  digest32 seed (pre ++ blk ++ post) = digest32 seed (pre ++ blk' ++ post) -> blk = blk'.
+Proof. exact block_inj32. Qed.
+Print Assumptions block_injective32.
+
+(* the same for the trailing partial block *)
+Theorem tail_injective64 : forall seed pre tl tl' q,
+  u64 seed -> bytes_ok pre -> bytes_ok tl -> bytes_ok tl' ->
+  length pre = (8 * q)%nat -> length tl = length tl' -> (0 < length tl < 8)%nat ->
+  digest64 seed (pre ++ tl) = digest64 seed (pre ++ tl') -> tl = tl'.
+Proof. exact tail_inj64. Qed.
+Print Assumptions tail_injective64.
+
+Theorem tail_injective32 : forall seed pre tl tl' q,
+  u32 seed -> bytes_ok pre -> bytes_ok tl -> bytes_ok tl' ->
+  length pre = (4 * q)%nat -> length tl = length tl' -> (0 < length tl < 4)%nat ->
+  digest32 seed (pre ++ tl) = digest32 seed (pre ++ tl') -> tl = tl'.
+Proof. exact tail_inj32. Qed.
+Print Assumptions tail_injective32.
+
+(* ------------------------------------------------------------------ sensitivity: length *)
+
+(* murmur3: appending j > 0 zero bytes without completing the current 4-byte block (this includes
+   starting from a multiple of 4) always changes the digest: the zero bytes contribute nothing to the
+   tail word, the final `h ^ len` differs *)
+Theorem length_sensitive32 : forall seed bytes j, u32 seed -> bytes_ok bytes ->
+  (0 < j)%nat -> (length bytes / 4 = (length bytes + j) / 4)%nat ->
+  digest32 seed bytes <> digest32 seed (bytes ++ repeat 0 j).
+Proof. exact len_sens32. Qed.
+Print Assumptions length_sensitive32.
+
+(* fasthash64: both lengths have the same number of full blocks and a non-empty tail *)
+Theorem length_sensitive64 : forall seed bytes j, u64 seed -> bytes_ok bytes ->
+  (0 < j)%nat -> (length bytes mod 8 <> 0)%nat -> (length bytes / 8 = (length bytes + j) / 8)%nat ->
+  Z.of_nat (length bytes + j) < 2 ^ 64 ->
+  digest64 seed bytes <> digest64 seed (bytes ++ repeat 0 j).
+Proof. exact len_sens64. Qed.
+Print Assumptions length_sensitive64.
+
+(* fasthash64 from a block boundary: true for every j in 1..7 except 4 (the state mod 4 separates the
+   two lengths because the multiplier is 1 mod 4) *)
+Theorem length_sensitive64_boundary_partial : forall seed bytes j, u64 seed -> bytes_ok bytes ->
+  (length bytes mod 8 = 0)%nat -> (0 < j < 8)%nat -> (j <> 4)%nat ->
+  digest64 seed bytes <> digest64 seed (bytes ++ repeat 0 j).
+Proof. exact len_sens64_boundary_partial. Qed.
+Print Assumptions length_sensitive64_boundary_partial.
+
+(* ... and false for j = 4: seed 0, bytes 8175ce73201c7408 e166e9b6c8f06860 and the same followed by
+   00000000 have the same fasthash64 (and zix_digest64) value *)
+Theorem length_sensitive64_boundary_refuted :
+  exists seed bytes, u64 seed /\ bytes_ok bytes /\ (length bytes mod 8 = 0)%nat /\
+    digest64 seed bytes = digest64 seed (bytes ++ repeat 0 4).
+Proof. exact len_sens64_boundary_refuted. Qed.
+Print Assumptions length_sensitive64_boundary_refuted.
+
+(* ------------------------------------------------------------------ the hypotheses are satisfiable *)
+
+Example ex_bytes : list Z := [0x81; 0xff; 0x00; 0x7f; 0x10; 0x20; 0x30; 0x40; 0x50; 0x60; 0xfe].
+
+Example ex_bytes_ok : bytes_ok ex_bytes.
+Proof. repeat constructor; lia. Qed.
+
+(* length 11 = 8 + 3: zero-extension by 1..4 stays in the tail and is covered by length_sensitive64 *)
+Example ex_length_sensitive64 :
+  digest64 5 ex_bytes <> digest64 5 (ex_bytes ++ repeat 0 4).
+Proof.
+  apply length_sensitive64; try exact ex_bytes_ok; cbn; try lia. unfold u64. lia.
+Qed.
+
+Example ex_length_sensitive32 :
+  digest32 5 (firstn 8 ex_bytes) <> digest32 5 (firstn 8 ex_bytes ++ repeat 0 3).
+Proof.
+  apply length_sensitive32; cbn; try lia; [unfold u32; lia|repeat constructor; lia].
+Qed.
+
+Example ex_address_independent :
+  digest64_at (mem_of 0xAA 4099 ex_bytes) 5 4099 11 = digest64_at (mem_of 0x55 8192 ex_bytes) 5 8192 11
+  /\ digest64_at (mem_of 0xAA 4099 ex_bytes) 5 4099 11 = 365408935067594978.
+Proof. split; vm_compute; reflexivity. Qed.
+
+Example ex_aligned :
+  digest64_aligned 9 [0x0807060504030201; 0x100f0e0d0c0b0a09] =
+  digest64 9 [1; 2; 3; 4; 5; 6; 7; 8; 9; 10; 11; 12; 13; 14; 15; 16].
+Proof. vm_compute. reflexivity. Qed.
